@@ -468,3 +468,87 @@ def c_composite_blocks(c, sub_rand, nested_rand, sib_rand, order):
                 (id(o._st) in got) == bool(o.is_used_rand), info="%s used_rand=%s collected=%s" % (o.name, o.is_used_rand, id(o._st) in got))
     c.check("used-random status propagates down only through declared-random composites",
             bool(sub.is_used_rand) == sub_rand and bool(nested.is_used_rand) == (sub_rand and nested_rand) and bool(sib.is_used_rand) == sib_rand)
+
+
+# ---- C20: ordering with lists on either side ---------------------------------------------------------------------------------
+@contract("rand_info_builder.ordering_lists", ["C20"],
+          ["vsc.visitors.expand_solve_order_visitor.ExpandSolveOrderVisitor.expand",
+           "vsc.visitors.expand_solve_order_visitor.ExpandSolveOrderVisitor.visit_scalar_field",
+           "vsc.model.rand_info_builder.RandInfoBuilder.visit_constraint_solve_order", "vsc.model.rand_info_builder.RandInfoBuilder.build"],
+          lambda tier, seed: [(k, n) for k in ("scalar_list", "list_scalar", "list_list", "pylist_list", "chain") for n in (1, 2, 3)],
+          replay="none", note="solve_order with a vsc list (1..3 elements) on the earlier and/or the later side, Python lists of fields, chains")
+def c_ordering_lists(c, kind, n):
+    from vsc.model.field_composite_model import FieldCompositeModel
+    from vsc.model.field_scalar_model import FieldScalarModel
+    from vsc.model.field_array_model import FieldArrayModel
+    from vsc.model.constraint_block_model import ConstraintBlockModel
+    from vsc.model.constraint_expr_model import ConstraintExprModel
+    from vsc.model.constraint_solve_order_model import ConstraintSolveOrderModel
+    from vsc.model.expr_bin_model import ExprBinModel
+    from vsc.model.expr_fieldref_model import ExprFieldRefModel
+    from vsc.model.bin_expr_type import BinExprType
+    from vsc.model.rand_info_builder import RandInfoBuilder
+    from vsc.visitors.expand_solve_order_visitor import ExpandSolveOrderVisitor
+
+    class T:
+        width = 4
+    root = FieldCompositeModel("o", True)
+    a = root.add_field(FieldScalarModel("a", 4, False, True))
+    b = root.add_field(FieldScalarModel("b", 4, False, True))
+    l1 = root.add_field(FieldArrayModel("l1", T(), True, None, 4, False, True, False))
+    l2 = root.add_field(FieldArrayModel("l2", T(), True, None, 4, False, True, False))
+    for _ in range(n):
+        l1.add_field()
+        l2.add_field()
+    root.set_used_rand(True, 0)
+    allf = [a, b] + l1.field_l + l2.field_l
+    e = ExprFieldRefModel(allf[0])
+    for f in allf[1:]:
+        e = ExprBinModel(e, BinExprType.Add, ExprFieldRefModel(f))
+    link = ConstraintExprModel(ExprBinModel(e, BinExprType.Lt, ExprFieldRefModel(a)))
+    if kind == "scalar_list":
+        dirs = [([a], [l1])]
+    elif kind == "list_scalar":
+        dirs = [([l1], [a])]
+    elif kind == "list_list":
+        dirs = [([l1], [l2])]
+    elif kind == "pylist_list":
+        dirs = [([a, b], [l1])]
+    else:
+        dirs = [([a], [l1]), ([l1], [b])]
+    root.add_constraint(ConstraintBlockModel("c", [link] + [ConstraintSolveOrderModel(x, y) for x, y in dirs]))
+
+    def scalars(m):
+        return list(m.field_l) if isinstance(m, FieldArrayModel) else [m]
+    # the dependency map: every scalar of `after` records every scalar of `before`
+    om = {}
+    for before, after in dirs:
+        for bm in before:
+            for am in after:
+                ExpandSolveOrderVisitor(om).expand(am, bm)
+    ok = True
+    for before, after in dirs:
+        for bm in before:
+            for am in after:
+                for x in scalars(am):
+                    ok = ok and x in om and all(y in om[x] for y in scalars(bm))
+    c.check("every field of the later argument records every field of the earlier argument as a dependency (lists give the full product)",
+            ok, info=repr({k.name: sorted(v.name for v in vs) for k, vs in om.items()}))
+    ri = RandInfoBuilder.build([root], [], None)
+    rs = ri.randsets()[0]
+    groups = rs.rand_order_l
+    c.check("ordering directives with lists produce ordered groups", isinstance(groups, list) and len(groups) >= 2, info=repr(groups))
+    if isinstance(groups, list):
+        pos = {}
+        for gi, g in enumerate(groups):
+            for f in g:
+                pos[f] = gi
+        ok = True
+        for before, after in dirs:
+            for bm in before:
+                for am in after:
+                    for y in scalars(bm):
+                        for x in scalars(am):
+                            ok = ok and y in pos and x in pos and pos[y] < pos[x]
+        c.check("the group of every earlier field precedes the group of every later field (list elements included)", ok,
+                info=repr([[f.name for f in g] for g in groups]))
